@@ -202,9 +202,9 @@ func scaleC15(g *tr.G) {
 				g.Emit("Q "+hx(classString(n, c, p)), true, "scale-quote", tagN, "scale-pos-"+posName[p])
 			}
 			// one class plus the single quote
-			if c != '\'' && (d >= 2 || (ci+si)%6 == 0) {
+			if c != '\'' {
 				b := []byte(classString(n, c, posLast))
-				b[(ci*7)%(n-1)] = '\''
+				b[(ci*7+si+rot)%(n-1)] = '\''
 				g.Emit("Q "+hx(string(b)), true, "scale-quote-pair", tagN)
 				if d == 3 {
 					b = []byte(classString(n, c, posFirst))
@@ -373,9 +373,11 @@ func scaleC16(g *tr.G) {
 				// kinds at one
 				switch {
 				case n > 8193:
-					if !(ki < primary && ki == (si+rot)%primary) && !(!k.long && !many && (ki+si+rot)%4 == 0) {
+					// beyond two buffers: one primary kind at the first such size, all three at the last
+					if !(ki < primary && (ki == (si+rot)%primary || si == len(sizes)-1)) && !(!k.long && !many && (ki+si+rot)%4 == 0) {
 						continue
 					}
+					withSplit = ki == (si+rot)%primary
 				case ki < primary:
 					withSplit = (ki+si+rot)%3 == 0 // sessions at all three sizes, Split at one
 				case k.long:
@@ -383,10 +385,6 @@ func scaleC16(g *tr.G) {
 						continue
 					}
 					withSplit = false
-				case many:
-					if (ki+2*si+rot)%9 != 0 {
-						continue
-					}
 				default:
 					if (ki+si+rot)%3 == 1 {
 						continue
@@ -396,8 +394,8 @@ func scaleC16(g *tr.G) {
 			if d == 1 && k.long && ki >= primary {
 				withSplit = (ki+si+rot)%3 == 0 // Split at one of the three sizes, sessions at all
 			}
-			if d == 1 && many && (ki+si+rot)%3 != 0 {
-				continue // the reference is quadratic in the number of tokens
+			if d <= 1 && many {
+				continue // token counts are the business of the count stream below
 			}
 			pre, post := "", " q1 'q 2'\n"
 			if (ki+si)%2 == 0 && k.name != "blank-lead" {
@@ -451,9 +449,7 @@ func scaleC16(g *tr.G) {
 				}
 			default:
 				use = []int{0, 1}
-				if many {
-					use = []int{2 + (ki+si)%4}
-				} else if !k.long {
+				if !k.long {
 					use = []int{(ki + si) % 2, 2 + (ki+si)%4}
 				}
 			}
@@ -483,6 +479,35 @@ func scaleC16(g *tr.G) {
 				}
 				for _, f := range fs {
 					g.Emit("N "+f+" "+hs+" "+variants[v], true, "scale-session", tagN, "scale-frag-"+f)
+				}
+			}
+		}
+		// a long token followed by a long remainder: Rest right after the token has about n more bytes
+		// to hand back, most of them already buffered
+		{
+			k := runKinds[(si+rot)%primary]
+			s := "p0 " + k.mk(n) + " " + rep("t1 t22\tt333\n", n)
+			hs := hx(s)
+			for j := 0; j < 6; j++ {
+				f := frags[(si+rot+3*j)%len(frags)]
+				g.Emit("N "+f+" "+hs+" nnrnr", true, "scale-long-tail", tagN, "scale-frag-"+f)
+			}
+		}
+		// token COUNT at the size: n short tokens of one shape, one separator each
+		if n <= 4097 || g.Thorough() {
+			shapes := []string{"a", "''", "ab", "\"x y\"", "\\ "}
+			seps := []string{" ", "\t", "\n"}
+			s := strings.Repeat(shapes[(si+rot)%len(shapes)]+seps[(si/3+rot)%len(seps)], n)
+			hs := hx(s)
+			g.Emit("S "+hs, true, "scale-count", tagN)
+			cv := []string{"sne", "ae", strings.Repeat("n", n+2) + "e", strings.Repeat("n", n/2) + "rn", strings.Repeat("n", n-1) + "cnrn"}
+			for vi, v := range cv {
+				if d < 2 && vi != (si+rot)%len(cv) {
+					continue
+				}
+				for j := 0; j < 3; j++ {
+					f := frags[(si+rot+vi+5*j)%len(frags)]
+					g.Emit("N "+f+" "+hs+" "+v, true, "scale-count", tagN, "scale-frag-"+f)
 				}
 			}
 		}
